@@ -13,6 +13,7 @@
 //! newline is counted one line short); C15_STUB=xfile relates line numbers of different files when it orders the
 //! two introductions of a colliding imported name (the name's own definition wins when it stands on a later line
 //! number than the colliding import statement).
+//! C15_STUB=stmt locates every error at the first line of the planted statement instead of at the offending element.
 //! `cross` renders only the cases named by C15_SHAPES / C15_KINDS / C15_FILES (comma lists) when these are set.
 
 use rand::{Rng, SeedableRng};
@@ -23,10 +24,12 @@ use vharness::project::{compile, CompileResult, Project};
 use vharness::util::*;
 
 // index order must equal SyltDiag!Kinds / Files / Poss / Shapes
-const KINDS: [&str; 18] = [
+const KINDS: [&str; 31] = [
     "syn_rparen", "syn_char", "unresolved", "dup_global", "const_local", "const_global", "const_param",
     "op_mismatch", "arg_mismatch", "annot_mismatch", "break_outside", "conflict", "dup_import", "dup_from_import",
     "dup_use_use", "dup_from_from", "dup_from_use", "dup_use_from",
+    "ml_arg_paren", "ml_arg_prime", "ml_arg_nested", "ml_unres_arg", "ml_unres_list", "ml_unres_tuple", "ml_unres_blob",
+    "ml_from_2nd", "ml_from_3rd", "ml_from_last", "ml_op_paren", "ml_op_cond", "ml_const_lambda",
 ];
 const FILES: [&str; 3] = ["main", "sibling", "sub"];
 const POSS: [&str; 5] = ["top_first", "top_mid", "top_last", "fn_body", "if_branch"];
@@ -100,7 +103,7 @@ fn is_top(pos: &str) -> bool {
 fn applicable(kind: &str, pos: &str, rel: &str) -> bool {
     (match kind {
         // a global can only be defined, a module only be imported at the top level
-        k if k.starts_with("dup_") => is_top(pos),
+        k if k.starts_with("dup_") || k.starts_with("ml_from_") => is_top(pos),
         "const_local" => !is_top(pos), // a one-line function cannot hold a definition and an assignment
         _ => true,
     }) && (rel == "def_earlier" || is_from_kind(kind)) // the layout of the imported modules only matters to name imports
@@ -136,6 +139,50 @@ fn construct(kind: &str, top: bool) -> &'static str {
     }
 }
 
+/// The planted form: its lines as (relative indentation level, text) and the offending element as
+/// (line of the form, characters before it on that line) - same table as SyltDiag!FormLines / Elem; TLC checks the
+/// whole form and the element's spelling at the marker. The older kinds are one line.
+fn form(kind: &str, top: bool) -> (Vec<(usize, &'static str)>, (usize, usize)) {
+    match kind {
+        "ml_arg_paren" => (vec![(0, "pz :: helper("), (1, "1,"), (1, "\"s\","), (0, ")")], (3, 0)),
+        "ml_arg_prime" => (vec![(0, "pz :: helper' 1,"), (1, "\"s\"")], (2, 0)),
+        "ml_arg_nested" => (
+            vec![(0, "pz :: helper("), (1, "helper("), (2, "1,"), (2, "\"s\","), (1, "),"), (1, "2,"), (0, ")")],
+            (4, 0),
+        ),
+        "ml_unres_arg" => (vec![(0, "pz :: helper("), (1, "1,"), (1, "nope,"), (0, ")")], (3, 0)),
+        "ml_unres_list" => (vec![(0, "pz :: ["), (1, "1,"), (1, "nope,"), (0, "]")], (3, 0)),
+        "ml_unres_tuple" => (vec![(0, "pz :: ("), (1, "1,"), (1, "nope,"), (0, ")")], (3, 0)),
+        "ml_unres_blob" => (vec![(0, "pz :: Bl {"), (1, "x: 1,"), (1, "y: nope,"), (0, "}")], (3, 3)),
+        "ml_from_2nd" => (
+            vec![(0, "from /leaf use ("), (1, "lu as m1,"), (1, "nope as m2,"), (1, "lt as m3,"), (0, ")")],
+            (3, 0),
+        ),
+        "ml_from_3rd" => (
+            vec![(0, "from /leaf use ("), (1, "lu as m1,"), (1, "lt as m2,"), (1, "nope as m3,"), (1, "lv as m4,"), (0, ")")],
+            (4, 0),
+        ),
+        "ml_from_last" => (
+            vec![(0, "from /leaf use ("), (1, "lu as m1,"), (1, "lt as m2,"), (1, "lv as m3,"), (1, "nope"), (0, ")")],
+            (5, 0),
+        ),
+        "ml_op_paren" => (vec![(0, "pz :: ("), (1, "2 * ("), (2, "1 + \"a\""), (1, ")"), (0, ")")], (3, 0)),
+        "ml_op_cond" if top => (
+            vec![
+                (0, "pf :: fn do"), (1, "if ("), (2, "ga > 0 and"), (2, "1 < \"a\""), (1, ") do"), (2, "ga"), (1, "end"),
+                (0, "end"),
+            ],
+            (4, 0),
+        ),
+        "ml_op_cond" => (
+            vec![(0, "if ("), (1, "ga > 0 and"), (1, "1 < \"a\""), (0, ") do"), (1, "ga"), (0, "end")],
+            (3, 0),
+        ),
+        "ml_const_lambda" => (vec![(0, "pz :: apply(fn do"), (1, "ga = 5"), (0, "end)")], (2, 0)),
+        _ => (vec![(0, construct(kind, top))], (1, 0)),
+    }
+}
+
 /// One preceding-text shape as source lines (SyltDiag!ShapeLines shows TLC the '@'-abstraction of these);
 /// a "line" holds the newlines of its literal. `top`: written at the top level.
 fn shape_lines(shape: &str, n: usize, top: bool) -> Option<Vec<String>> {
@@ -161,13 +208,18 @@ fn shape_lines(shape: &str, n: usize, top: bool) -> Option<Vec<String>> {
 
 #[derive(Clone, Debug)]
 struct Line {
+    /// indentation level (inserted lines: relative to the place they are put at)
     level: usize,
     text: String,
+    /// this line holds the offending element, `col` characters into its text
     planted: bool,
+    col: usize,
+    /// this line is the first line of the planted form
+    fstart: bool,
 }
 
 fn ln(level: usize, text: &str) -> Line {
-    Line { level, text: text.to_string(), planted: false }
+    Line { level, text: text.to_string(), planted: false, col: 0, fstart: false }
 }
 
 /// Where something can be put in a file template. `Nested(n)`: inside n further ifs inside the if-branch.
@@ -200,7 +252,7 @@ fn template(file: &str, depth: usize, inserts: &[(Place, Line)]) -> Vec<Line> {
         for (p, l) in inserts.iter() {
             if *p == place {
                 let mut l = l.clone();
-                l.level = level;
+                l.level += level;
                 out.push(l);
             }
         }
@@ -215,6 +267,10 @@ fn template(file: &str, depth: usize, inserts: &[(Place, Line)]) -> Vec<Line> {
     out.push(ln(0, "ga :: 1"));
     out.push(ln(0, "gb := leaf.lv + lw"));
     out.push(ln(0, "sid :: fn s: str -> str do ret s end"));
+    out.push(ln(0, "Bl :: blob { x: int, y: int }"));
+    out.push(ln(0, "apply :: fn f: fn -> void do"));
+    out.push(ln(1, "f()"));
+    out.push(ln(0, "end"));
     put(&mut out, Place::TopMid, 0);
     out.push(ln(0, "helper :: fn a: int, b: int -> int do"));
     out.push(ln(1, "c :: a + b"));
@@ -256,21 +312,25 @@ struct Style {
     tabs: bool,
 }
 
-/// Join lines; returns (text, 1-based character offset of the planted line's first non-blank character).
-fn join(lines: &[Line], st: Style) -> (String, usize) {
+/// Join lines; returns (text, 1-based character offset of the offending element, 1-based character offset of the
+/// first non-blank character of the planted form's first line).
+fn join(lines: &[Line], st: Style) -> (String, usize, usize) {
     let unit = if st.tabs { "\t" } else { "    " };
     let nl = if st.crlf { "\r\n" } else { "\n" };
     let mut s = String::new();
-    let mut marker = 0usize;
+    let (mut marker, mut fstart) = (0usize, 0usize);
     for l in lines {
         s.push_str(&unit.repeat(l.level));
+        if l.fstart {
+            fstart = s.chars().count() + 1;
+        }
         if l.planted {
-            marker = s.chars().count() + 1;
+            marker = s.chars().count() + 1 + l.col;
         }
         s.push_str(&l.text.replace('\n', nl));
         s.push_str(nl);
     }
-    (s, marker)
+    (s, marker, fstart)
 }
 
 #[derive(Clone, Debug)]
@@ -349,6 +409,7 @@ struct Rendered {
     path: String,
     text: String,
     marker: usize,
+    fstart: usize,
     leaf: String,
     twin: String,
     /// line on which leaf.sy and twin.sy define lv
@@ -375,7 +436,7 @@ fn last_from_line(kind: &str, text: &str) -> usize {
 
 /// A module defining lv on line `line` (padded with comment lines).
 fn module_text(line: usize, value: usize) -> String {
-    format!("{}lv :: {}\n", "//p\n".repeat(line - 1), value)
+    format!("{}lv :: {}\nlu :: 4\nlt :: 5\n", "//p\n".repeat(line - 1), value)
 }
 
 fn render(c: &Case) -> Rendered {
@@ -385,26 +446,31 @@ fn render(c: &Case) -> Rendered {
     for (n, (pl, sh)) in c.shapes.iter().enumerate() {
         let lines = shape_lines(sh, n + 1, is_top(pl)).unwrap_or_else(|| tool_error("shape without a line"));
         for text in lines {
-            inserts.push((place_of(pl, c.depth), Line { level: 0, text, planted: false }));
+            inserts.push((place_of(pl, c.depth), ln(0, &text)));
         }
     }
     let base_inserts = inserts.clone();
-    inserts.push((place_of(&c.pos, c.depth), Line { level: 0, text: construct(&c.kind, top).to_string(), planted: true }));
+    let (flines, (eline, ecol)) = form(&c.kind, top);
+    for (j, (level, text)) in flines.iter().enumerate() {
+        let l = Line { level: *level, text: text.to_string(), planted: j + 1 == eline, col: ecol, fstart: j == 0 };
+        inserts.push((place_of(&c.pos, c.depth), l));
+    }
     let mut planted = BTreeMap::new();
     let mut base = BTreeMap::new();
     let mut text = String::new();
-    let mut marker = 0;
+    let (mut marker, mut fstart) = (0, 0);
     for f in FILES.iter() {
         let p = path_of(f).to_string();
         if *f == c.file {
-            let (t, m) = join(&template(f, c.depth, &inserts), st);
-            let (b, _) = join(&template(f, c.depth, &base_inserts), st);
+            let (t, m, fs) = join(&template(f, c.depth, &inserts), st);
+            let (b, _, _) = join(&template(f, c.depth, &base_inserts), st);
             text = t.clone();
             marker = m;
+            fstart = fs;
             planted.insert(p.clone(), t);
             base.insert(p, b);
         } else {
-            let (t, _) = join(&template(f, 0, &[]), Style::default());
+            let (t, _, _) = join(&template(f, 0, &[]), Style::default());
             planted.insert(p.clone(), t.clone());
             base.insert(p, t);
         }
@@ -424,7 +490,7 @@ fn render(c: &Case) -> Rendered {
         prj.insert("leaf.sy".to_string(), leaf.clone());
         prj.insert("twin.sy".to_string(), twin.clone());
     }
-    if marker == 0 {
+    if marker == 0 || fstart == 0 {
         tool_error("planted line was not rendered");
     }
     Rendered {
@@ -433,6 +499,7 @@ fn render(c: &Case) -> Rendered {
         path: path_of(&c.file).to_string(),
         text,
         marker,
+        fstart,
         leaf,
         twin,
         def_line,
@@ -472,6 +539,12 @@ fn run_case(c: &Case) -> (Value, Value) {
         }
         eline = eline.saturating_sub(lost).max(1);
     }
+    if stub.as_deref() == Some("stmt") && eline > 0 && efile == r.path {
+        // the error is located at the first token of the enclosing statement instead of at the offending element
+        let from: String = r.text.chars().take(r.fstart - 1).collect();
+        let upto: String = r.text.chars().take(r.marker - 1).collect();
+        eline -= upto.matches('\n').count() - from.matches('\n').count();
+    }
     if stub.as_deref() == Some("xfile") && eline > 0 && is_from_kind(&c.kind) && c.rel == "def_later" {
         // line numbers related across files: the imported name's own definition "is written later"
         efile = "leaf.sy".to_string();
@@ -479,7 +552,7 @@ fn run_case(c: &Case) -> (Value, Value) {
     }
     let trace = json!({
         "idx": c.idx, "kind": c.kind, "file": c.file, "pos": c.pos, "shape": c.shape, "rel": c.rel,
-        "path": r.path, "text": abs(&r.text), "marker": r.marker, "leaf": r.leaf, "twin": r.twin,
+        "path": r.path, "text": abs(&r.text), "marker": r.marker, "fstart": r.fstart, "leaf": r.leaf, "twin": r.twin,
         "base_ok": base_res.is_ok(), "res": res.class(), "efile": efile, "eline": eline,
     });
     let base_err = match &base_res {
